@@ -1,5 +1,6 @@
 pub mod addr;
 pub mod merkle;
+pub mod script;
 pub mod ser;
 pub mod sha;
 pub mod sighash;
